@@ -26,7 +26,7 @@ import (
 // TxSpec is one transaction of a generated block.
 type TxSpec struct {
 	From int    `json:"f"` // funded account index
-	Kind int    `json:"k"` // 0 = value transfer, 1 = call of the log-emitting contract
+	Kind int    `json:"k"` // 0 = value transfer, 1 = call of the log-emitting contract, 2 = call of the loop contract (Val%400+1 logs)
 	To   int    `json:"t"` // funded account index (transfers)
 	Val  uint64 `json:"v"`
 }
@@ -45,6 +45,10 @@ var (
 	logAddr   = common.HexToAddress("0x00000000000000000000000000000000000c0de1")
 	// log-emitting contract: slot0++ ; LOG1(calldata[0:32], topic=CALLER) ; LOG1(same data, topic=0xbb)
 	logCode = common.FromHex("600054600101600055" + "600035600052" + "3360206000a1" + "60bb60206000a1" + "00")
+	// second contract: emits calldata[0:32] logs in a loop (LOG1, data = counter, topic = CALLER),
+	// so that a reorganisation of a few blocks drops more than 512 logs
+	loopAddr = common.HexToAddress("0x00000000000000000000000000000000000c0de2")
+	loopCode = common.FromHex("600035" + "5b" + "8015601a57" + "60019003" + "80600052" + "3360206000a1" + "600356" + "5b00")
 )
 
 func init() {
@@ -68,7 +72,8 @@ func coinbaseOf(node int) common.Address {
 
 func genesisSpec() *core.Genesis {
 	alloc := types.GenesisAlloc{
-		logAddr: {Code: logCode, Balance: big.NewInt(1)},
+		logAddr:  {Code: logCode, Balance: big.NewInt(1)},
+		loopAddr: {Code: loopCode, Balance: big.NewInt(1)},
 	}
 	bal, _ := new(big.Int).SetString("1000000000000000000000000", 10)
 	for _, a := range acctAddrs {
@@ -132,7 +137,13 @@ func buildTree(specs []NodeSpec) *refTree {
 				from := tx.From % nAccounts
 				gasPrice := new(big.Int).Mul(b.BaseFee(), big.NewInt(2))
 				var ltx *types.LegacyTx
-				if tx.Kind == 1 {
+				if tx.Kind == 2 {
+					n := tx.Val%400 + 1
+					var data [32]byte
+					data[31] = byte(n)
+					data[30] = byte(n >> 8)
+					ltx = &types.LegacyTx{Nonce: b.TxNonce(acctAddrs[from]), To: &loopAddr, Gas: 40_000 + 1_100*n, GasPrice: gasPrice, Data: data[:]}
+				} else if tx.Kind == 1 {
 					var data [32]byte
 					data[31] = byte(tx.Val)
 					data[30] = byte(tx.Val >> 8)
@@ -229,7 +240,7 @@ func (t *refTree) blocks(ns []*refNode) types.Blocks {
 
 // universe is every address the generated blocks can touch.
 func (t *refTree) universe() []common.Address {
-	out := []common.Address{logAddr, {}}
+	out := []common.Address{logAddr, loopAddr, {}}
 	out = append(out, acctAddrs[:]...)
 	for i := range t.nodes {
 		out = append(out, coinbaseOf(i))
